@@ -63,6 +63,8 @@ pub struct PlanSpec {
     pub dirperm: u64,
     pub dirorder: Vec<String>,
     pub faults: Vec<FaultSpec>,
+    /// the tool's stderr is /dev/full (every write to it fails) instead of a pipe
+    pub stderr_full: bool,
 }
 
 #[derive(Clone, Debug, Default)]
@@ -145,8 +147,15 @@ pub fn run_zeep(top: &Path, cwd: &Path, args: &[String], plan: &PlanSpec, tag: &
         .env("VERIFSIM_PLAN", &plan_path)
         .env("RUST_BACKTRACE", "0")
         .stdin(Stdio::null())
-        .stdout(Stdio::null())
-        .stderr(Stdio::piped());
+        .stdout(Stdio::null());
+    match (plan.stderr_full, std::fs::OpenOptions::new().write(true).open("/dev/full")) {
+        (true, Ok(f)) => {
+            cmd.stderr(Stdio::from(f));
+        }
+        _ => {
+            cmd.stderr(Stdio::piped());
+        }
+    }
     let mut child = match cmd.spawn() {
         Ok(c) => c,
         Err(e) => {
